@@ -1,0 +1,20 @@
+//go:build verif
+
+package inactivity
+
+// Verification hook (build tag verif): re-exports existing identifiers only.
+
+// VerifC19Codec is the Marshal/Unmarshal pair every wire/storage type implements.
+type VerifC19Codec interface {
+	Marshal() ([]byte, error)
+	Unmarshal([]byte) error
+}
+
+// VerifC19New returns a fresh zero value of the named unexported message type.
+func VerifC19New(name string) VerifC19Codec {
+	switch name {
+	case "claimSignatureMessage":
+		return &claimSignatureMessage{}
+	}
+	return nil
+}
